@@ -5,6 +5,7 @@ package main
 import (
 	"bufio"
 	"bytes"
+	csrand "crypto/rand"
 	"errors"
 	"io"
 	"math/big"
@@ -174,6 +175,47 @@ func driveNonce(c *ctx) {
 		}
 	}
 	signWith(keys[0], digests[0][:31], entropies[3], whole) // inadmissible digest: entropy must not even be read
+
+	// the key was imported from a buffer the caller has since wiped / reused: the nonce must still be the function of the KEY
+	for i, d := range keys {
+		buf := append([]byte{}, be32(d)[:]...)
+		priv, err := secec.NewPrivateKey(buf)
+		if err != nil {
+			panic(err)
+		}
+		for j := range buf {
+			buf[j] = byte(i) // scrubbed (all keys imported through "the same scratch buffer" end up with the same bytes in it)
+		}
+		for _, dg := range digests[:2] {
+			rd := &scriptedReader{data: append(append([]byte{}, entropies[2]...), bytes.Repeat([]byte{0xEE}, 64)...), steps: whole}
+			r, s, v, err := priv.SignRaw(rd, dg)
+			c.E("sig.Raw", "d", h32(d), "digest", hx(dg), "rng", "reader", "reads", rawJSON(readsToJSON(rd.log)), "entropy", hx(entropies[2]),
+				"ok", err == nil, "r", scHexOr(r), "s", scHexOr(s), "v", int(v), "wiped_import", true)
+			r, s, v, err = priv.SignRaw(secec.RFC6979SHA256(), dg)
+			c.E("sig.Raw", "d", h32(d), "digest", hx(dg), "rng", "rfc6979", "ok", err == nil, "r", scHexOr(r), "s", scHexOr(s), "v", int(v))
+		}
+	}
+	// rand == nil: the library falls back to the process-wide crypto/rand.Reader.  Swap it for a scripted constant stream: the
+	// nonce must STILL be hedged with the key and the digest (a broken system RNG never makes two messages or keys share r)
+	{
+		saved := csrand.Reader
+		for _, d := range keys[:4] {
+			for _, dg := range digests {
+				rd := &scriptedReader{data: append(append([]byte{}, entropies[1]...), bytes.Repeat([]byte{0xEE}, 512)...), steps: whole}
+				csrand.Reader = rd
+				r, s, v, err := privFrom(d).SignRaw(nil, dg)
+				csrand.Reader = saved
+				delivered := 0
+				for _, x := range rd.log {
+					delivered += x[1]
+				}
+				// the default reader may be asked in any chunking: only the first 32 bytes may matter
+				c.E("sig.Raw", "d", h32(d), "digest", hx(dg), "rng", "reader", "reads", rawJSON(readsToJSON(rd.log)), "entropy", hx(entropies[1]),
+					"ok", err == nil, "r", scHexOr(r), "s", scHexOr(s), "v", int(v), "nil_rand", true)
+			}
+		}
+		csrand.Reader = saved
+	}
 	c.sticky = false
 
 	// ---- rejection sampler on scripted candidate streams (deep)
